@@ -682,6 +682,11 @@ fn on_recv(m: &mut Mdl, pre: &Mdl, ap: &AP, frame: &[u8], c: &Call, r: &mut Rule
                     r.viol("c14.oversize-delivered", pre, format!("received packet of {} bytes exceeds the announced Maximum Packet Size {} but was delivered: {}", frame.len(), l, c.describe()));
                 } else if !disc && pre.st == St::Connected && pre.link.peer_mps.map(|p| p >= 4).unwrap_or(true) {
                     r.viol("c14.oversize-not-answered", pre, format!("received packet of {} bytes exceeds the announced Maximum Packet Size {} but no DISCONNECT(0x95) is sent: {}", frame.len(), l, c.describe()));
+                } else if !disc && pre.st != St::Disc && !c.has_close() {
+                    // the DISCONNECT cannot be sent (no CONNACK exchanged yet, or it would exceed the peer's own
+                    // limit): the answer is then the bare close
+                    r.label("c14.inbound-oversize-no-disconnect-possible");
+                    r.viol("c14.oversize-not-closed", pre, format!("received packet of {} bytes exceeds the announced Maximum Packet Size {}; no DISCONNECT can be sent in this situation, but the connection is not closed either: {}", frame.len(), l, c.describe()));
                 }
                 return;
             }
